@@ -294,7 +294,35 @@ static void queue_shutdown_race(Src& s) {
 // ---------------------------------------------------------------- pool
 static void pool_tasks(Src& s) {
     const int baseline_threads = perturb::thread_count();
-    const int workers = 1 + static_cast<int>(s.draw(s.chance(1, 4) ? 32 : 6));
+    int workers = 1 + static_cast<int>(s.draw(s.chance(1, 4) ? 32 : 6));
+    // one pool in five is asked for its size the other documented ways: 0 (size from OSMIUM_POOL_THREADS, default -2), a negative
+    // number (cores plus that number), more than the maximum of 32; at least one thread in every case
+    int asked = workers;
+    std::string env_text = "(unset)";
+    bool env_queue = false;
+    if (s.chance(1, 5)) {
+        static const int requests[] = {0, 0, 0, -1, -2, -3, -15, -16, -17, -100, -2147483647 - 1, 33, 64, 1000};
+        asked = requests[s.draw(sizeof(requests) / sizeof(requests[0]))];
+        // (only settings whose meaning the documentation fixes: not set, or a plain positive number; what "0", "-3", " 3" or "4x" in the
+        // variable mean is not documented -- the first version of this check asserted "not a number: as if unset" for " 3", which
+        // strtoll reads as 3: the check demanded more than the documentation, corrected)
+        static const char* const envs[] = {nullptr, nullptr, "1", "2", "5", "31", "32", "33", "100", "1000"};
+        const char* env = envs[s.draw(sizeof(envs) / sizeof(envs[0]))];
+        if (env) {
+            ::setenv("OSMIUM_POOL_THREADS", env, 1);
+            env_text = std::string{"'"} + env + "'";
+        } else {
+            ::unsetenv("OSMIUM_POOL_THREADS");
+        }
+        // the documented rule, computed here
+        const long long setting = env ? std::atoll(env) : 0;
+        long long n = asked;
+        if (n == 0) n = setting ? setting : -2;
+        if (n < 0) n += static_cast<long long>(std::thread::hardware_concurrency());
+        workers = static_cast<int>(n < 1 ? 1 : n > 32 ? 32 : n);
+        env_queue = s.boolean();
+        vp::count("pool_size_by_rule");
+    }
     const int M = 1 + static_cast<int>(s.draw(s.chance(1, 5) ? 600 : 60));
     // tasks that submit tasks need a queue that can never be full (otherwise all workers can block in push with nobody left to pop: a
     // property of bounded queues, not a defect), so half of the cases use a queue larger than the total number of tasks
@@ -307,7 +335,8 @@ static void pool_tasks(Src& s) {
         // caller error), so nested submission is only used when all futures are awaited before destruction
         if (k == 3 && destroy_with_queue) k = 0;
     }
-    std::string desc = "pool workers=" + std::to_string(workers) + " queue=" + std::to_string(qsize) + " tasks=" + std::to_string(M) + (destroy_with_queue ? " destroy-while-queued" : "");
+    if (env_queue) ::setenv("OSMIUM_MAX_WORK_QUEUE_SIZE", std::to_string(qsize).c_str(), 1);
+    std::string desc = "pool workers=" + std::to_string(workers) + (asked != workers ? " (asked for " + std::to_string(asked) + ", OSMIUM_POOL_THREADS " + env_text + ")" : "") + (env_queue ? " queue from the environment" : "") + " queue=" + std::to_string(qsize) + " tasks=" + std::to_string(M) + (destroy_with_queue ? " destroy-while-queued" : "");
     if (vp::want_desc()) vp::describe(desc);
     std::vector<std::atomic<int>> ran(static_cast<size_t>(2 * M));
     for (auto& r : ran) r = 0;
@@ -315,8 +344,19 @@ static void pool_tasks(Src& s) {
     std::mutex nested_mu;
     std::vector<std::future<int>> nested;
     {
-        osmium::thread::Pool pool{workers, qsize};
-        VP_CHECK(pool.num_threads() == workers, "pool-size", "pool has " << pool.num_threads() << " threads, asked for " << workers);
+        osmium::thread::Pool pool{asked, env_queue ? 0 : qsize};
+        ::unsetenv("OSMIUM_POOL_THREADS");
+        ::unsetenv("OSMIUM_MAX_WORK_QUEUE_SIZE");
+        VP_CHECK(pool.num_threads() == workers, "pool-size", "pool has " << pool.num_threads() << " threads, the documented rule gives " << workers << " | " << desc);
+        {
+            // the threads really exist
+            int t = perturb::thread_count();
+            for (int spin = 0; spin < 200 && t < baseline_threads + workers; ++spin) {
+                std::this_thread::sleep_for(std::chrono::milliseconds(1));
+                t = perturb::thread_count();
+            }
+            VP_CHECK(t >= baseline_threads + workers, "pool-size", "pool reports " << workers << " threads but only " << (t - baseline_threads) << " were started | " << desc);
+        }
         for (int i = 0; i < M; ++i) {
             switch (kind[static_cast<size_t>(i)]) {
                 case 0:
